@@ -16,7 +16,7 @@ SPEC = dict(
                "popcounts and both parenthesis kernels for every rank / start bit, and compared with answers obtained by counting bits one "
                "at a time; likewise every enumerated 8-word block on every block-popcount path. select_in_byte is checked completely.",
     level_note="Not all 2^64 words: the families are chosen along the kernels' internal lanes. Paths exercised are those present on this "
-               "x86-64 host (BMI2 PDEP, AVX2 present; AVX-512 VPOPCNTDQ, NEON, SVE2 absent) and are listed in the evidence. The bit "
+               "x86-64 host (BMI2 PDEP, AVX2, and in the simd build AVX-512 VPOPCNTDQ where detected; NEON / SVE2 absent) and are listed in the evidence. The bit "
                "counter of the oracle is self-tested against core's count_ones on every word.",
     assumptions=["a kernel defect that needs >5 set bits AND >5 runs AND more than one non-background 16-bit lane is outside the space"],
 )
